@@ -198,3 +198,6 @@ def run(R, ctx):
     order(R, ctx)
     from .. import loops
     loops.index_removal_rule(R, ctx, "C05.index")
+    # data files required by a bundle go through the same serde -> Lua expression serializer (transcode): its value preservation
+    from . import c14 as _c14
+    _c14.data_values(R, ctx, rid="C05.data")
